@@ -3,7 +3,7 @@ CONSTANTS
   MaxReq = 2
   MinTicks = 1
   MaxTicks = 3
-  Payloads = {1, 2}
+  Payloads = {1}
   Variant = "intended"
 SPECIFICATION Spec
 INVARIANTS TypeOK CallbackAtMostOnce CancelledNeverCalled ExactlyOneFate FirstAcceptableReplyWins AllFailOnlyAfterAll AllFailedCompletes TimeoutOtherwise
